@@ -37,10 +37,12 @@ CHUNK = 40
 BOUNDS = {
     'quick': {'base_graphs': 'all connected graphs <= 4 nodes', 'edge_orders': '0..3 (all single; each edge in turn 2 / 0, first edge 3)',
               'designs': ['unique', 'homo', 'free'], 'fragments': ['all-atom', 'coarse'], 'legacy': [True, False],
+              'constructors': 'from_string; with legacy=False also from_graph and from_fragment_dicts',
               'descriptors': '$ > < with and without labels, orders 1-2, up to 4 per atom, leftovers',
               'typed_in': 40, 'multiplied_units': '|2 |3', 'layered': 'graphs <= 4 nodes, 1..2 intermediate levels', 'random': '60 + 60', 'repeats_per_cell': 2},
     'thorough': {'base_graphs': 'all connected graphs <= 5 nodes', 'edge_orders': '0..3 + 2 seeded assignments per graph', 'repeats_per_cell': 3,
                  'designs': ['unique', 'homo', 'free'], 'fragments': ['all-atom', 'coarse'], 'legacy': [True, False],
+                 'constructors': 'from_string; with legacy=False also from_graph and from_fragment_dicts',
                  'descriptors': 'as quick', 'typed_in': 40, 'multiplied_units': '|2 |3 |5', 'layered': 'graphs <= 5 nodes, 1..3 levels',
                  'random': '4000 + 3000'},
 }
@@ -81,26 +83,33 @@ def check_case(case):
         templates = gr.read_templates(cgsmiles, case)
     except Exception as e:
         return Outcome(key, False, [], skipped=True, note='fragment block not readable: %r' % e)
-    fails, nontrivial, step = [], False, -1
-    try:
-        resolver = gr.make_resolver(cgsmiles, case, 'string')
-        for step, (coarse, fine) in enumerate(resolver.resolve_iter()):
-            all_atom = case['all_atom'] and step == len(case['blocks']) - 1
-            base = gr.intended_graph(case['base']) if (step == 0 and case.get('base')) else coarse
-            planned = case.get('bonds') if step == 0 else None
-            probs = rs.check_bonds(base, fine, templates[step], case['legacy'], all_atom, planned=planned)
-            n_bonds = sum(1 for _, _, d in fine.edges(data=True) if 'bonding' in d)
-            names = {k: base.nodes[k].get('fragname') for k in base.nodes}
-            desc = {k: rs.template_descriptors(templates[step].get(names[k])) for k in base.nodes}
-            nontrivial = nontrivial or n_bonds > 0 or bool(rs.spec_exact_counts(base, desc, case['legacy']))
-            for clause, detail in probs:
-                fails.append(Failure('MoleculeResolver.resolve', clause, 'step %d of %s (legacy=%s): %s' % (
-                    step, gr.full_string(case), case['legacy'], detail), classify(case, clause, step)))
-    except Exception as e:      # noqa
-        if not case.get('valid'):
-            return Outcome(key, False, [], skipped=True, note='%s: %s' % (type(e).__name__, e))
-        fails.append(Failure('MoleculeResolver.resolve', 'exception', 'step %d of %s: %s: %s' % (
-            step + 1, gr.full_string(case), type(e).__name__, str(e)[:300]), 'resolve/exception/%s' % type(e).__name__))
+    fails, nontrivial = [], False
+    # the matching mode is an argument of every constructor: the non-default one is also taken through from_graph and
+    # from_fragment_dicts (fresh templates each time; a resolver may write on the graphs it is given)
+    for how in (['string'] if case['legacy'] else ['string', 'graph', 'dicts']):
+        step = -1
+        via = '' if how == 'string' else ' [constructor: %s]' % {'graph': 'from_graph', 'dicts': 'from_fragment_dicts'}[how]
+        try:
+            resolver = gr.make_resolver(cgsmiles, case, how)
+            if how == 'dicts':
+                templates = gr.read_templates(cgsmiles, case)
+            for step, (coarse, fine) in enumerate(resolver.resolve_iter()):
+                all_atom = case['all_atom'] and step == len(case['blocks']) - 1
+                base = gr.intended_graph(case['base']) if (step == 0 and case.get('base')) else coarse
+                planned = case.get('bonds') if step == 0 else None
+                probs = rs.check_bonds(base, fine, templates[step], case['legacy'], all_atom, planned=planned)
+                n_bonds = sum(1 for _, _, d in fine.edges(data=True) if 'bonding' in d)
+                names = {k: base.nodes[k].get('fragname') for k in base.nodes}
+                desc = {k: rs.template_descriptors(templates[step].get(names[k])) for k in base.nodes}
+                nontrivial = nontrivial or n_bonds > 0 or bool(rs.spec_exact_counts(base, desc, case['legacy']))
+                for clause, detail in probs:
+                    fails.append(Failure('MoleculeResolver.resolve', clause, 'step %d of %s (legacy=%s)%s: %s' % (
+                        step, gr.full_string(case), case['legacy'], via, detail), classify(case, clause, step)))
+        except Exception as e:      # noqa
+            if not case.get('valid'):
+                return Outcome(key, False, [], skipped=True, note='%s: %s' % (type(e).__name__, e))
+            fails.append(Failure('MoleculeResolver.resolve', 'exception', 'step %d of %s%s: %s: %s' % (
+                step + 1, gr.full_string(case), via, type(e).__name__, str(e)[:300]), 'resolve/exception/%s' % type(e).__name__))
     seen, uniq = set(), []
     for f in fails:
         if (f['signature'], f['kind']) not in seen:
